@@ -32,6 +32,8 @@ in your Sphinx ``conf.py``
 
 """
 
+import inspect
+
 from sphinx.ext import autodoc
 
 from sigtools import specifiers, _util
@@ -54,7 +56,12 @@ def process_signature(app, what, name, obj, options,
     if isinstance(obj, instancemethod): # python 2 unbound methods
         obj = obj.__func__
     try:
-        if isinstance(parent, type) and callable(obj):
+        if (
+                isinstance(parent, type) and callable(obj)
+                and not isinstance(
+                    inspect.getattr_static(parent, name.rpartition('.')[2], None),
+                    staticmethod)
+            ):
             # slot wrappers and method descriptors of extension types
             # refuse to be bound to a plain object (TypeError)
             obj = _util.safe_get(obj, object(), type(parent))
